@@ -37,13 +37,23 @@ Tags(r) ==
               (IF \E i \in DOMAIN r.nodes : LET nd == r.nodes[i] IN Abs(nd[4] - r.size[nd[1]][1] * S) > 1 \/ Abs(nd[5] - r.size[nd[1]][2] * S) > 1 THEN {"node-size-changed"} ELSE {})
               \cup (IF \E i \in DOMAIN r.nodes, j \in DOMAIN r.nodes : i < j /\ Overlap(Rect(r.nodes[i]), Rect(r.nodes[j])) THEN {"nodes-overlap"} ELSE {})
               \cup (IF \E e \in DOMAIN r.routes : Len(r.routes[e].pts) < 2 THEN {"route-missing"} ELSE
-                    (IF \E e \in DOMAIN r.routes : \E i \in 1..(Len(r.routes[e].pts) - 1) :
-                           LET a == r.routes[e].pts[i]  b == r.routes[e].pts[i + 1] IN Abs(a[1] - b[1]) > TOL /\ Abs(a[2] - b[2]) > TOL THEN {"diagonal-route-segment"} ELSE {})
-                    \cup (IF \E e \in DOMAIN r.routes : LET pts == r.routes[e].pts
+                    \* an edge drawn as one slanted straight line between its two nodes: what libavoid hands back when its search finds no path
+                    LET FB == {e \in DOMAIN r.routes : Len(r.routes[e].pts) = 2 /\ Abs(r.routes[e].pts[1][1] - r.routes[e].pts[2][1]) > TOL /\ Abs(r.routes[e].pts[1][2] - r.routes[e].pts[2][2]) > TOL}
+                        OK == DOMAIN r.routes \ FB
+                    IN
+                    (IF FB # {} THEN {"edge-drawn-as-one-slanted-line-between-its-nodes"} ELSE {}) \cup
+                    (LET Slant(e, i) == LET a == r.routes[e].pts[i]  b == r.routes[e].pts[i + 1] IN Abs(a[1] - b[1]) > TOL /\ Abs(a[2] - b[2]) > TOL
+                         sl == {<<e, i>> \in OK \X (1..50) : i < Len(r.routes[e].pts) /\ Slant(e, i)}
+                     IN  IF sl = {} THEN {}
+                         \* only the leg that reaches an end node is off axis (by less than half that node's size): a bend point and the node it
+                         \* leads to were placed by different steps
+                         ELSE IF \A p \in sl : p[2] \in {1, Len(r.routes[p[1]].pts) - 1} THEN {"diagonal-route-segment:only-the-leg-into-an-end-node"}
+                         ELSE {"diagonal-route-segment"})
+                    \cup (IF \E e \in OK : LET pts == r.routes[e].pts
                                                             ru == Rect(NodeOf(r, r.routes[e].u))  rv == Rect(NodeOf(r, r.routes[e].v))
                                                         IN  ~((Inside(pts[1], ru, r.pad) /\ Inside(pts[Len(pts)], rv, r.pad)) \/ (Inside(pts[1], rv, r.pad) /\ Inside(pts[Len(pts)], ru, r.pad)))
                           THEN {"route-does-not-join-its-end-nodes"} ELSE {})
-                    \cup (IF \E e \in DOMAIN r.routes : \E i \in 1..(Len(r.routes[e].pts) - 1), k \in DOMAIN r.nodes :
+                    \cup (IF \E e \in OK : \E i \in 1..(Len(r.routes[e].pts) - 1), k \in DOMAIN r.nodes :
                                 r.nodes[k][1] \notin {r.routes[e].u, r.routes[e].v} /\ Through(r.routes[e].pts[i], r.routes[e].pts[i + 1], Rect(r.nodes[k]))
                           THEN {"route-through-a-third-node"} ELSE {}))
               \cup (LET badc == {<<0, r.cx[i]>> : i \in {i \in DOMAIN r.cx : ~ConOK(r, r.cx[i], 0)}} \cup {<<1, r.cy[i]>> : i \in {i \in DOMAIN r.cy : ~ConOK(r, r.cy[i], 1)}}
